@@ -110,6 +110,9 @@ func compileField(src *ast.Field, options fieldOptions) (*FieldSpec, error) {
 	if (src.ID < 1 && !options.allowNegativeIDs) || src.ID > math.MaxInt16 {
 		return nil, fieldIDOutOfBoundsError{ID: src.ID, Name: src.Name}
 	}
+	if src.ID < math.MinInt16 {
+		return nil, fieldIDOutOfBoundsError{ID: src.ID, Name: src.Name}
+	}
 
 	required, err := options.requiredness.isRequired(src)
 	if err != nil {
